@@ -768,3 +768,6 @@ def run(res, tier):
     res.rule("C04.7 level-uniform operators: the level argument of M2M / M2L / L2L only subscripts the per-level tables (no branch, loop bound or selection over the operator's cells depends on it); the kernel names no executor boundary level")
     import c05
     c05.level_uniform(facts, res, K, "C04.7.level-uniform")
+    res.rule("C04.8 per-item scratch: a local array declared outside an operator's item loop and written inside it is fully redefined (copyall / setall / ...) at the top of every iteration before anything else touches it - what is computed for one child / transfer source never depends on which items came before it")
+    n8 = c05.per_item_buffers(facts, res, K, "C04.8.per-item-scratch")
+    res.floor("C04.8", n8, 3, "scratch arrays carried across item loops (4 on the pinned tree)")
